@@ -71,7 +71,8 @@ template <class X> struct Q {
         if (rc != URI_SUCCESS || req < 0) { c.violation("C17", fmt("query/%s/chars-required-failed", X::tag()), what + fmt(" rc=%d", rc)); return; }
         if ((size_t)req < model.size()) c.violation("C17", fmt("query/%s/chars-required-too-small", X::tag()), what + fmt(" required=%d text-length=%zu", req, model.size()));
         // every capacity 0..required+2 (plus a negative one)
-        for (long cap = -1; cap <= (long)req + 2; cap++) {
+        for (long capi = -3; capi <= (long)req + 2; capi++) {
+            long cap = capi == -3 ? (long)INT_MIN : capi == -2 ? -(long)INT_MAX : capi;
             size_t capChars = cap > 0 ? (size_t)cap : 0; int mode = (int)((c.case_index + (uint64_t)cap) & 1);
             Char* dest = (Char*)ob.make(capChars * sizeof(Char), mode, 0x3C);
             int written = -77; int useW = (int)(cap & 1);
@@ -122,7 +123,7 @@ template <class X> struct Q {
     // sizes beyond INT_MAX must be refused, not wrapped (UBSan watches the arithmetic)
     void huge_check(Ctx& c, int which) {
         // 200 M and 360 M characters (the latter beyond the per-item guard for factor 6), and the largest lengths the per-item guard lets through
-        size_t n = which == 0 ? (size_t)200 * 1000 * 1000 : which == 1 ? (size_t)360 * 1000 * 1000 : which == 2 ? (size_t)INT_MAX / 6 - 1 : (size_t)INT_MAX / 3 - 1;
+        size_t n = which == 0 ? (size_t)200 * 1000 * 1000 : which == 1 ? (size_t)360 * 1000 * 1000 : which == 2 ? (size_t)INT_MAX / 6 - 1 : which == 3 ? (size_t)INT_MAX / 3 - 1 : which == 4 ? (size_t)INT_MAX / 6 : (size_t)INT_MAX / 3;
         if (sizeof(Char) > 1 && c.tier != "thorough") { c.count("huge_skipped_wide_in_quick"); return; }
         Char* big = (Char*)malloc((n + 1) * sizeof(Char)); if (!big) { c.count("huge_skipped_no_memory"); return; }
         for (size_t i = 0; i < n; i++) big[i] = X::wid('a'); big[n] = 0;
@@ -138,6 +139,14 @@ template <class X> struct Q {
             Char* out = nullptr; { LibScope ls; rc = X::ComposeQueryMallocEx(&out, &item, 1, nb); }
             c.evaluations++;
             if (rc == URI_SUCCESS) { size_t len = xstrlen<X>(out); if (len != 2 * n + 1) c.violation("C17", fmt("query/%s/huge-compose-wrong-length", X::tag()), what + fmt(" len=%zu", len)); free(out); }
+            // measuring a list whose SECOND item has the huge string as key and a short value (separator and '=' come on top of it)
+            { static Char k8b[9]; for (int i = 0; i < 8; i++) k8b[i] = X::wid('k'); k8b[8] = 0; static Char v1[2]; v1[0] = X::wid('v'); v1[1] = 0;
+              QList second; second.key = big; second.value = v1; second.next = nullptr; QList first; first.key = k8b; first.value = nullptr; first.next = &second;
+              int rq = -1; int r4; { LibScope ls; r4 = X::ComposeQueryCharsRequiredEx(&first, &rq, 1, nb); } c.evaluations++;
+              long long f = nb ? 6 : 3; long long truth2 = f * 8 + 1 + f * (long long)n + 1 + f * 1; long long len2 = 8 + 1 + (long long)n + 1 + 1;
+              Str w4 = fmt("list [(\"kkkkkkkk\",NULL), (huge key of %zu characters, \"v\")], normalizeBreaks=%d: worst-case total %lld", n, nb, truth2);
+              if (r4 == URI_SUCCESS && truth2 > INT_MAX) c.violation("C17", fmt("query/%s/size-beyond-int-max-not-refused", X::tag()), w4 + fmt(" rc=0 charsRequired=%d", rq));
+              else if (r4 == URI_SUCCESS && (long long)rq < len2) c.violation("C17", fmt("query/%s/chars-required-too-small", X::tag()), w4 + fmt(" required=%d", rq)); }
             // the writer with a small buffer: a short first item, then the huge string as key or as value. The worst-case size of the
             // second item added to what is already written passes INT_MAX: it must be refused, and nothing beyond maxChars touched
             for (int asValue = 0; asValue < 2; asValue++) {
@@ -207,7 +216,7 @@ static void run_case(Ctx& c, uint64_t idx) {
         uint64_t i = c.case_index - ns - nh - 255 * 4; c.note(fmt("query multi-item INT_MAX variant %llu", (unsigned long long)i)); c.attribute("C17"); c.distinct(99000 + i);
         if (i & 1) qW->multi_check(c, (unsigned)(i >> 1)); else qA->multi_check(c, (unsigned)(i >> 1)); return;
     }
-    if (idx < nh) { c.note("query huge"); c.attribute("C17"); qA->huge_check(c, (int)(idx % 4)); if (c.tier == "thorough" && idx % 4 != 3) qW->huge_check(c, (int)(idx % 4)); c.distinct(idx + 12345); return; }
+    if (idx < nh) { c.note("query huge"); c.attribute("C17"); qA->huge_check(c, (int)(idx % 6)); if (c.tier == "thorough" && (idx % 6 == 0 || idx % 6 == 2 || idx % 6 == 4)) qW->huge_check(c, (int)(idx % 6)); c.distinct(idx + 12345); return; }
     QItems L; int n = r.chance(1, 40) ? r.range(9, 70) : r.range(0, 8);
     for (int i = 0; i < n; i++) { QItem it; it.key = r.chance(1, 6) ? Str() : gen_string(r, 10); it.hasValue = r.chance(2, 3); if (it.hasValue) it.value = r.chance(1, 6) ? Str() : gen_string(r, 10);
         if (n <= 8 && r.chance(1, 40)) { size_t len = special_length(r) % 1100; Str x = gen_string(r, len); while (x.size() < len) x += gen_string(r, len - x.size()).empty() ? Str("a") : gen_string(r, len - x.size()); x.resize(len); (r.coin() ? it.key : it.value) = x; if (!it.hasValue) it.value.clear(); }
